@@ -72,6 +72,12 @@ def cases(d):
                    "options": cp2o or None}]}
     if has_cross:
         cg["crosses"] = [{"name": "x0", "cps": ["cp1", "cp2"], "options": xo or None}]
+    gated = d.chance(35)
+    if gated:
+        # the first coverpoint has a sampling condition of its own (a field or a callable): while it is false neither the
+        # coverpoint nor a cross over it counts - in the instance and in the type
+        cg["params"].append({"name": "en", "type": {"kind": "bit", "w": 1}})
+        cg["cps"][0]["iff"] = {d.choice(["field", "callable"]): "en"}
     ops = [["new", 0]]
     ninst = 1
     for _ in range(d.randint(3, 30)):
@@ -79,7 +85,7 @@ def cases(d):
             ops.append(["new", d.randint(0, nvar - 1)])
             ninst += 1
         else:
-            ops.append(["sample", d.randint(0, ninst - 1), d.randint(0, 15), d.randint(0, 15)])
+            ops.append(["sample", d.randint(0, ninst - 1), d.randint(0, 15), d.randint(0, 15)] + ([1 if d.chance(65) else 0] if gated else []))
     return {"cg": cg, "variants": [list(v) for v in variants], "ops": ops}
 
 
@@ -113,9 +119,9 @@ class Model:
         shape = tuple(tuple(sorted(s)) for s in b1)
         self.inst.append({"shape": shape, "b1": b1, "h1": [0] * len(b1), "h2": [0, 0], "hx": [0] * (len(b1) * 2)})
 
-    def sample(self, i, a, b):
+    def sample(self, i, a, b, en=1):
         m = self.inst[i]
-        k1 = [k for k, s in enumerate(m["b1"]) if a in s]
+        k1 = [k for k, s in enumerate(m["b1"]) if a in s] if en else []
         k2 = [k for k, s in enumerate(self.b2) if b in s]
         for k in k1:
             m["h1"][k] += 1
@@ -169,8 +175,13 @@ def run_case(case):
                 objs.append(ns["CG"](tuple(v)) if isinstance(v[0], str) else ns["CG"](v[0], v[1]))
                 model.new(v)
             else:
-                objs[op[1]].sample(op[2], op[3])
-                model.sample(op[1], op[2], op[3])
+                if case["cg"]["cps"][0].get("iff"):
+                    en_ = op[4] if len(op) > 4 else 1
+                    objs[op[1]].sample(op[2], op[3], en_)
+                    model.sample(op[1], op[2], op[3], en_)
+                else:
+                    objs[op[1]].sample(op[2], op[3])
+                    model.sample(op[1], op[2], op[3])
                 if last_sampled is not None and last_sampled != op[1]:
                     info["interleaved"] = True
                 last_sampled = op[1]
@@ -229,6 +240,8 @@ def body(case, acc):
     nt = info.get("shapes", 0) >= 2 and info.get("max_same_shape", 0) >= 2 and info.get("interleaved")
     acc.case(case, nt, sample=text_of(case))
     acc.label("ops", len(case["ops"]))
+    if case["cg"]["cps"][0].get("iff"):
+        acc.label("coverpoint with its own iff (gated samples)")
     cg = case["cg"]
     if cg.get("crosses"):
         acc.label("has cross")
